@@ -1,7 +1,7 @@
 from .base import *
 
 ID = 'C06'
-THEOREMS = ['C06_sub_is_add_neg', 'C06_add_spellings', 'C06_translate', 'C06_paths', 'C06_radicand_total']
+THEOREMS = ['C06_sub_is_add_neg', 'C06_add_spellings', 'C06_translate', 'C06_paths', 'C06_radicand_total', 'C06_mag_value']
 OWNED = {'GAdd', 'GSub', 'TTranslate'}
 RULE = ('pairs of geometric numbers by angle relation (identical, exactly pi apart, within 1e-15..1e-6 of parallel / opposite incl. blades differing by 6, orthogonal, whole-turn twins, arbitrary) x magnitude relation '
         '(equal, 1-8 ulps apart, ratio 1e+-16, zero operand, small integers, log-uniform over the domain), blades to 2^40 (2^19 for the Cartesian leg); 4 spellings of + and -, translate, a-a, a+b vs b+a; '
@@ -47,5 +47,6 @@ def generate(rng, tier):
 
 LEVEL_TEXT = ('Kernel-checked structural theorems for every libm: the 4 spellings of + and - and translate are one function; a - b IS a + negate(b); the three code paths are exactly as documented; '
               'the general path\'s magnitude sqrt(max(radicand, 0)) is never NaN and never negative for ANY input (this is the repaired defect F3). '
-              'The numeric heart of C06 - the sum reproduces the Cartesian vector sum within the stated tolerance - is NOT proved: it is decided by a 60-digit oracle on boundary-directed cases (S3, partial).')
-LEVEL_NOTE = ('Partial. Trusted: Coq kernel + vm_compute; 4 standard-library axioms; hand-written model validated bit-for-bit each run with the recorded libm table; the Cartesian leg rests on testing against mpmath, not on a theorem.')
+              'C06_mag_value (S2, REAL pi and cos): on the general path, for any libm with |cosF - cos| <= u on [-8,8], the magnitude of a + b is the Euclidean length of the Cartesian sum sqrt(|a|^2 + |b|^2 + 2|a||b|cos(dir b - dir a)) up to the square root of the radicand error (|a|^2+|b|^2)(u + 1e-14) + 10*2^-1075 plus one rounding. '
+              'The DIRECTION of the sum (atan2 of the component sums, re-encoded on the blade lattice) is not proved: it is decided by a 60-digit oracle on boundary-directed cases (S3, partial).')
+LEVEL_NOTE = ('Partial. Trusted: Coq kernel + vm_compute; 4 standard-library axioms; plus the primitive-integer axioms (PrimInt63.*, Uint63.*_spec) that the Interval tactic uses for the two bounds on the real pi in PiBounds.v (value theorem only); hand-written model validated bit-for-bit each run with the recorded libm table; the direction of the Cartesian sum rests on testing against mpmath, not on a theorem.')
